@@ -122,9 +122,12 @@ class Setup:
         self.h1 = list(case["h"])
         self.m = self.order // 2
         self.kw = dict(case.get("kw", {}))
+        # Einstein's constant is a documented public attribute (default
+        # 8 pi); units with kappa = 1 are set by assigning rel.kappa
+        self.kappa = float(case.get("kappa", ref4d.KAPPA))
 
     def grid(self, level):
-        f = 2 ** level
+        f = 2 ** (level + int(self.case.get("level_shift", 0)))
         h = [x / f for x in self.h1]
         if self.boundary == "periodic":
             N = [n * f for n in self.N1]
@@ -139,7 +142,7 @@ class Setup:
         fd = make_fd(N, self.x0, h, self.order, self.boundary)
         t = self.t if t is None else t
         ex = ref4d.exact(self.metric, t, fd.x, fd.y, fd.z,
-                         Lambda=self.Lambda)
+                         Lambda=self.Lambda, kappa=self.kappa)
         data = inputs_from_exact(ex, self.form, self.matter, omit=omit)
         if self.case.get("omit_defaults"):
             data = drop_defaults(data)
@@ -147,6 +150,8 @@ class Setup:
             data.update(extra(fd, ex))
         rel = make_rel(fd, data, Lambda=self.Lambda, vacuum=self.vacuum,
                        **self.kw)
+        if self.kappa != ref4d.KAPPA:
+            rel.kappa = self.kappa
         return rel, ex, fd, trim
 
     def interior(self, a, trim, lead):
@@ -194,7 +199,66 @@ def order_ok(e1, e2, p, floor, slack=None):
     return q >= p - slack, q
 
 
+def cond(ex):
+    """Round-off amplification of index raising: max(1, max|gamma^ij|).
+    Multiplies the round-off floors, so that a metric with tiny components
+    (scale factor 1e-3: gamma^ij ~ 1e6) is not held to an absolute 1e-11."""
+    return max(1.0, float(np.max(np.abs(ex["gammaup"]))))
+
+
+def extra_classes(case, ex):
+    """Coverage labels shared by the curvature checks."""
+    out = []
+    if float(np.max(ex["g"][0, 0])) > 0:
+        out.append("g_tt>0 (shift exceeds lapse)")
+    if float(np.min(np.abs(ex["gdet"]))) < 1e-8:
+        out.append("|det g|<1e-8")
+    if case.get("kappa", ref4d.KAPPA) != ref4d.KAPPA:
+        out.append("kappa!=8pi")
+    return out
+
+
 def natural_scale(ex, trim=0):
     """Curvature-level scale of the configuration: max|ddg| + max|dg|^2."""
     return float(np.max(np.abs(ex["ddg"])) + np.max(np.abs(ex["dg"]))**2
                  + 1e-30)
+
+
+def asymptotic(test, max_points=70 ** 3):
+    """Convergence is an asymptotic statement. A convergence-rule failure
+    (its observation carries the observed order 'q') on the level pair (0, 1)
+    is re-examined on the pair (1, 2); it is reported only if the same
+    sub-result fails there too. Failures of any other kind are reported
+    directly. A change that makes a result wrong (non-convergent) fails on
+    every pair, so nothing real is lost; an under-resolved coarse grid
+    (pre-asymptotic observed order) is not reported."""
+    from .common import Note
+
+    def wrapped(case, note):
+        n1 = Note()
+        test(case, n1)
+        note.nontrivial = n1.nontrivial
+        note.classes.extend(n1.classes)
+        conv = [(d, o) for d, o in n1.pending
+                if isinstance(o, dict) and "q" in o]
+        other = [(d, o) for d, o in n1.pending
+                 if not (isinstance(o, dict) and "q" in o)]
+        keep = conv
+        if conv and not case.get("level_shift"):
+            su = Setup(dict(case, level_shift=1))
+            N, _, _ = su.grid(1)
+            if N[0] * N[1] * N[2] <= max_points:
+                n2 = Note()
+                test(dict(case, level_shift=1), n2)
+                again = {d for d, _ in n2.pending}
+                keep = [(d, dict(o, refined=dict(
+                    [x for x in n2.pending if x[0] == d][0][1] or {})))
+                    for d, o in conv if d in again]
+                note.classes.append("refined-pair-examined")
+                if len(keep) < len(conv):
+                    note.classes.append("pre-asymptotic-on-coarse-pair")
+        for d, o in other + keep:
+            note.fail(d, o)
+    wrapped.__name__ = getattr(test, "__name__", "test")
+    wrapped.__doc__ = test.__doc__
+    return wrapped
